@@ -270,6 +270,9 @@ def gen_tree(r, absdir):
         fs[top] += b"#include nosuchfile\n"
     if r.chance(1, 10):
         top = b"./" + top
+    elif sub and r.chance(1, 6):
+        # the same file spelled with a doubled slash before its last component
+        top = sub + b"//" + top[len(sub) + 1:]
     if r.chance(1, 25):
         # a NUL byte in a line: correspondence only (S speaks of text files)
         k = r.choice(sorted(fs))
@@ -719,6 +722,23 @@ def run(ctx):
             s = to_json(c)
             s["impl"] = io[:160]
             samples.append(s)
+    # a file that is reached again and again (skipped with a warning each time) must not use anything up: eighty repeats under
+    # a descriptor limit of 48, then a file that has not been read yet
+    if bad < 6:
+        rd = os.path.join(ctx.scratch, "repeat10")
+        os.makedirs(rd, exist_ok=True)
+        open(os.path.join(rd, "A"), "w").write("#include B\n" * 81 + "a1\n#include C\n")
+        open(os.path.join(rd, "B"), "w").write("b1\n")
+        open(os.path.join(rd, "C"), "w").write("c1\n")
+        rc, o, e = eng.real.run(["-Q", "-w", "^A"], cwd=rd, timeout=30, nofile=48)
+        got = canon_real(rc, o, e)
+        want = "OK W=80 " + hexlist([b"b1", b"a1", b"c1"])
+        dist["repeated_include_runs"] = 1
+        if got != want:
+            bad += 1
+            ctx.violation("input", case={"engine": "B", "fs": {"A": "#include B (81 times), a1, #include C", "B": "b1", "C": "c1"}, "args": ["^A"], "descriptor_limit": 48},
+                          expected=want, observed=got[:300], engine="args",
+                          detail="a file included 81 times (80 repeats skipped) under a descriptor limit of 48, then a fresh include: pdsh -Q -w ^A answers %s" % got[:200])
     shutil.rmtree(eng.base, ignore_errors=True)
     have_input = any(v["kind"] != "no-failing-input-found" for v in ctx.violations)
     vlib.report_proof_break(ctx, have_input)
